@@ -726,6 +726,11 @@ def mkOp (x : CS) (toks : List String) : Prog OpOut :=
     if which == "crc32" || which == "ordsum" then do
       let al ← load .alloc "allocated" 0; pure (.text s!"cksrec {which} {al}")
     else pure (.text "bad-op")
+  -- `allocated_memory()` and `data()` each load the cursor once; `memory()` and `reserved_slice()` do not
+  | ["slices"] => do
+    let a1 ← load .alloc "allocated" 0
+    let a2 ← load .alloc "allocated" 0
+    pure (.text s!"r=ok val={a1},{a2 - c.dataOffset},{cap},{c.reserved}")
   | _ => pure (.text "bad-op")
 
 /-- apply the table effects of a completed operation and produce its `res` text -/
